@@ -109,6 +109,14 @@ func oracleC01(r *Rng, n int, thorough bool, seeds []string) *OracleResult {
 			}
 			if d := diffPkt4(p, q); d != "" {
 				what = "the first decoded packet changed when the bytes were decoded again: " + d
+				return
+			}
+			// ... nor when the caller reuses the bytes it was decoded from (a receive buffer)
+			for i := range b {
+				b[i] ^= 0x5a
+			}
+			if d := diffPkt4(p, q); d != "" {
+				what = "the decoded packet changed when the bytes it was decoded from were overwritten: " + d
 			}
 		}()
 		if what != "" {
